@@ -10,4 +10,8 @@ ENTRIES = [
      r"if \(piece_length <= (\(1 << \d+\)) \|\| piece_length > \(\d+ << \d+\)\)", "N"),
     ("c09_piece_len_max", "src/download/download_constructor.cc",
      r"if \(piece_length <= \(1 << \d+\) \|\| piece_length > (\(\d+ << \d+\))\)", "N"),
+    # HashTorrent::start erases a completion/error timer left over from an earlier check (1) or not (0)
+    ("c09_start_erases_delay", "src/data/hash_torrent.cc",
+     r"HashTorrent::start\(bool try_quick\) \{(?:(?!\n\}).)*?(erase\(&m_delay_checked\))(?:(?!\n\}).)*?queue\(try_quick\);", "N",
+     lambda m: 1),
 ]
